@@ -20,6 +20,21 @@ Theorem wrappers_faithful : forallb wrapper_ok CBind.table = true.
 Proof. exact wrappers_faithful_table. Qed.
 Print Assumptions wrappers_faithful.
 
+(* Option structs (ManifoldMeshGLOptions / ManifoldMeshGL64Options): every function taking one
+   has its blocks in the table; every block `if (opt->G) result->M = copy(opt->S, L)` guards on
+   the field it copies (G = S) and routes it to the MeshGL member and length the reviewed map
+   names; every array field of the struct is copied exactly once, every length field is used,
+   no member is assigned twice. *)
+Theorem options_marshalled_faithfully : options_ok = true.
+Proof. exact options_ok_table. Qed.
+Print Assumptions options_marshalled_faithfully.
+
+Theorem option_blocks_guard_what_they_copy :
+  forall fn st blocks g s l d, In (fn, st, blocks) CBind.opt_tables -> In (g, s, l, d) blocks ->
+  g = s /\ assoc s option_field_map = Some (d, l).
+Proof. exact options_blocks_sound. Qed.
+Print Assumptions option_blocks_guard_what_they_copy.
+
 (* manifoldc.h and the definitions cover each other; the table is the whole API *)
 Theorem api_complete : tables_complete = true /\ 250 <= length CBind.table.
 Proof. exact (conj tables_complete_ok table_nonempty). Qed.
@@ -138,3 +153,14 @@ Proof.
   exact (conj translate_in_table_ok (conj translate_swapped_rejected (conj cylinder_swapped_rejected
         (conj warp_ctx_dropped_rejected (conj cube_allocating_rejected (conj wrong_size_rejected swapped_optype_rejected)))))).
 Qed.
+
+(* the copy-paste slip seeded in manifold_meshgl64_w_options (guard on run_indices, copy of run_original_ids) *)
+Example option_guard_slip_rejected :
+  opt_table_ok CBind.c_structs
+    ("manifold_meshgl64_w_options", "ManifoldMeshGL64Options",
+     [("halfedge_tangents", "halfedge_tangents", "n_tris*3*4", "halfedgeTangent");
+      ("run_indices", "run_indices", "run_indices_length", "runIndex");
+      ("run_indices", "run_original_ids", "run_original_ids_length", "runOriginalID");
+      ("merge_from_vert", "merge_from_vert", "merge_verts_length", "mergeFromVert");
+      ("merge_to_vert", "merge_to_vert", "merge_verts_length", "mergeToVert")]) = false.
+Proof. exact wrong_guard_rejected. Qed.
